@@ -4,11 +4,15 @@ namespace Xp.C06
 open Lean (Json)
 open Xp.IOx
 
-def outcomeOf : String → Outcome
-  | "fail" => .fail | "conflict" => .conflict | "crashBefore" => .crashBefore | "crashAfter" => .crashAfter | _ => .ok
-
-def outcomeStr : Outcome → String
-  | .ok => "ok" | .fail => "fail" | .conflict => "conflict" | .crashBefore => "crashBefore" | .crashAfter => "crashAfter"
+/-- the fault plan entries of the harness: outcomes, a lost reply, the API error classes (Forbidden, a
+transport timeout and a context deadline are errors the code has no branch for: `.other`) -/
+def outcomeOf : String → Flt
+  | "fail" => .fail | "conflict" => .conflict | "crashBefore" => .crashBefore | "crashAfter" => .crashAfter
+  | "lost" => .lost .other
+  | "lostNoop" => .cls .other   -- oracle: the lost write changed nothing (no new resourceVersion): as if it never arrived
+  | "notFound" => .cls .notFound | "exists" => .cls .exists | "invalid" => .cls .invalid
+  | "forbidden" => .cls .other | "timeout" => .cls .other | "deadline" => .cls .other
+  | _ => .ok
 
 def errStr : Err → String
   | .notFound => "notFound" | .conflict => "conflict" | .invalid => "invalid" | .exists => "alreadyExists" | .other => "other"
@@ -24,6 +28,11 @@ def xrefStr : Option XRef → String
 def crefStr (r : Option CRef) (uid : Bool) : String :=
   match r with
   | some r => apiVersion r.group r.version ++ "|" ++ r.kind ++ "|" ++ r.ns ++ "|" ++ r.name ++ (if uid then "+uid" else "")
+  | none => ""
+
+/-- the claim labels of an XR as "namespace/name" ("" = none) -/
+def lblStr : Option (String × String) → String
+  | some (n, ns) => ns ++ "/" ++ n
   | none => ""
 
 def xrefOf (j : Json) : Option XRef :=
@@ -42,33 +51,50 @@ def envOf (j : Json) : EnvAct :=
   | "xrTouch" => .xrTouch (str j "name") (nat j "id")
   | "xrRemove" => .xrRemove (str j "name")
   | "xrDelete" => .xrDelete (str j "name")
+  | "xrCreate" => .xrCreate (str j "name") (crefOf (obj j "ref")) (bool (obj j "ref") "uid")
+  | "xrBind" =>
+    match crefOf (obj j "ref") with
+    | some r => .xrBind (str j "name") r (bool (obj j "ref") "uid")
+    | none => .xrTouch "" 0   -- (not generated) no such XR: a no-op
   | "claimDelete" => .claimDelete
   | "claimRetype" => .claimRetype ⟨str j "g", str j "v", str j "k"⟩
   | _ => .claimTouch
 
+def isClaimAct (j : Json) : Bool := (str j "act").startsWith "claim"
+
+/-- the slot of `St.others` that holds claim `t` while claim `w` is under reconciliation (0 = the main
+claim, i = peer i-1): claim `w` is the current one and the main claim sits in `w`'s slot -/
+def slotOf (w t : Nat) : Nat := if t == 0 then w - 1 else t - 1
+
+/-- an environment action of the scenario as seen while claim `w` is reconciled -/
+def envFor (w : Nat) (j : Json) : EnvAct :=
+  let t := nat j "who"
+  if isClaimAct j && t != w then .other (slotOf w t) (envOf j) else envOf j
+
 /-- (verb, obj, name, sub, patch type) of a request, as the harness logs it -/
-def reqDesc : Req → String × String × String × String × String
-  | .getClaim _ => ("get", "claim", "c", "", "")
+def reqDesc (me : String) : Req → String × String × String × String × String
+  | .getClaim _ => ("get", "claim", me, "", "")
   | .getXR n _ => ("get", "xr", n, "", "")
-  | .updClaim _ => ("update", "claim", "c", "", "")
-  | .updClaimStatus _ => ("update", "claim", "c", "status", "")
+  | .updClaim _ => ("update", "claim", me, "", "")
+  | .updClaimStatus _ => ("update", "claim", me, "status", "")
   | .upgradeXR n _ _ => ("patch", "xr", n, "", "json")
   | .deleteXR n _ => ("delete", "xr", n, "", "")
   | .createXR n _ _ => ("create", "xr", n, "", "")
   | .patchXR n _ _ => ("patch", "xr", n, "", "merge")
   | .applyXR n _ => ("patch", "xr", n, "", "apply")
 
-def callJson (c : CallRec) : Json :=
-  let (verb, obj, name, sub, pt) := reqDesc c.req
+/-- `ostr` = the fault plan entry of the scenario for this call ("ok" if none) -/
+def callJson (me : String) (ostr : String) (c : CallRec) : Json :=
+  let (verb, obj, name, sub, pt) := reqDesc me c.req
   let isErr := match c.resp with | some (.err _) => true | _ => false
   let err := match c.outcome with
     | .ok => (match c.resp with | some (.err e) => errStr e | _ => "")
-    | .fail => "other"
-    | .conflict => if c.req.isWrite then "conflict" else "other"
     | .crashBefore | .crashAfter => "crashed"
-  let applied := c.req.isWrite && !isErr && (c.outcome == .ok || c.outcome == .crashAfter)
+    | f => errStr (fltErr f c.req)
+  let took := match c.outcome with | .ok | .crashAfter | .lost _ => true | _ => false
+  let applied := c.req.isWrite && !isErr && took
   Json.mkObj [("verb", .str verb), ("obj", .str obj), ("name", .str name), ("sub", .str sub), ("pt", .str pt),
-    ("outcome", .str (outcomeStr c.outcome)), ("err", .str err), ("applied", .bool applied)]
+    ("outcome", .str ostr), ("err", .str err), ("applied", .bool applied)]
 
 def claimJson (s : St) : Json :=
   match s.claim with
@@ -77,47 +103,76 @@ def claimJson (s : St) : Json :=
 
 def xrsJson (s : St) (names : List Name) : Json :=
   Json.arr (names.filterMap fun n => (s.xrs n).map fun x =>
-    Json.mkObj [("name", .str n), ("ref", .str (crefStr x.cref x.crefUid)), ("labeled", .bool x.labeled), ("fin", .bool x.fin),
+    Json.mkObj [("name", .str n), ("ref", .str (crefStr x.cref x.crefUid)), ("lbl", .str (lblStr x.lbl)), ("fin", .bool x.fin),
       ("deleting", .bool x.deleting), ("status", .bool x.status)]).toArray
 
 def dedupSorted (l : List String) : List String :=
   (l.mergeSort (· ≤ ·)).eraseDups
 
-/-- model-side monitor: the three clauses of the property on the model's own state -/
+/-- model-side monitor: the clauses of the property on the model's own state, from the viewpoint of
+the claim that is current in `s`. In a world with other claims' controllers (`s.peers`) only the writes
+that carry a resourceVersion are claimed never to hit a foreign-bound XR (`no_hijack_guarded`). -/
 def propOk (s : St) (names : List Name) (initRefs : List Name) : Bool × String :=
   let bound := names.filter fun n => match s.xrs n with | some x => x.cref == some s.me | none => false
-  let hijack := s.trace.any fun e => match e with | .xrWrite _ (some r) => r != s.me | _ => false
+  let hijack := s.trace.any fun e => match e with
+    | .xrWrite _ (some r) => !s.peers && r != s.me
+    | .xrWriteG _ (some r) => r != s.me
+    | _ => false
   -- trace is newest first: every create must have an older ack (or an initial ref)
   let rec before : List Ev → Bool
     | [] => true
     | .create n :: t => (t.contains (.ack n) || initRefs.contains n) && before t
     | _ :: t => before t
+  let refd := match s.claim with
+    | some c => bound.all fun n => c.refName == some n
+    | none => true
   if bound.length > 1 then (false, "C06:second-xr")
   else if hijack then (false, "C06:hijack")
   else if !before s.trace then (false, "C06:create-before-ref")
+  else if !refd then (false, "C06:bound-not-referenced")
   else (true, "")
+
+def claimOf (me : CRef) (cj : Json) : Claim := ⟨1, me, xrefOf (obj cj "ref"), bool cj "fin", bool cj "deleting", bool cj "foreground"⟩
 
 def handler : Handler := fun scn =>
   let cj := obj scn "claim"
-  let xref0 := xrefOf (obj cj "ref")
-  let ref0 := (xref0.map (·.name)).getD ""
-  let claim0 : Claim := ⟨1, meRef, xref0, bool cj "fin", bool cj "deleting", bool cj "foreground"⟩
+  let claim0 := claimOf meRef cj
+  let peerJs := arr scn "peers"
+  let sides : List Side := peerJs.map fun pj =>
+    let me : CRef := ⟨str pj "name", str pj "ns", meRef.group, meRef.version, meRef.kind⟩
+    let c := claimOf me (obj pj "claim")
+    ⟨me, some c, [c], []⟩
+  let refsOf (c : Option Claim) : List Name := match c.bind (·.refName) with | some n => [n] | none => []
+  -- initial reference names per claim (index = who)
+  let initRefs : List (List Name) := refsOf (some claim0) :: sides.map fun d => refsOf d.claim
   let xrs0 := (arr scn "xrs").map fun j =>
-    (str j "name", (⟨2, crefOf (obj j "ref"), bool (obj j "ref") "uid", bool j "labeled", bool j "fin", bool j "deleting", bool j "status", 0⟩ : XR))
-  let s0 : St := { me := meRef, claim := some claim0, hist := [claim0], xrs := fun n => xrs0.lookup n, xhist := fun n => [xrs0.lookup n], nextRv := 10, trace := [] }
+    let r := crefOf (obj j "ref")
+    let lbl : Option (String × String) :=
+      if bool j "labeled" then some (meRef.name, meRef.ns)
+      else match r with
+        | some r => if r.name != meRef.name || r.ns != meRef.ns then some (r.name, r.ns) else none
+        | none => none
+    (str j "name", (⟨2, r, bool (obj j "ref") "uid", lbl, bool j "fin", bool j "deleting", bool j "status", 0⟩ : XR))
+  let s0 : St := { me := meRef, claim := some claim0, hist := [claim0], xrs := fun n => xrs0.lookup n, xhist := fun n => [xrs0.lookup n],
+                   nextRv := 10, trace := [], peers := !sides.isEmpty, others := sides }
   let recs := arr scn "recs"
-  let names := dedupSorted (xrs0.map (·.1) ++ strs scn "cands" ++ (recs.flatMap fun r => strs r "names") ++ (if ref0 == "" then [] else [ref0]))
-  let initRefs := if ref0 == "" then [] else [ref0]
+  let names := dedupSorted (xrs0.map (·.1) ++ strs scn "cands" ++ (recs.flatMap fun r => strs r "names") ++
+    (recs.flatMap fun r => (arr r "env").map fun e => str e "name").filter (· != "") ++ initRefs.flatten)
   let ssa := str scn "syncer" == "ssa"
   let step (acc : St × List Json × Option String) (rj : Json) : St × List Json × Option String :=
     let (s, outs, bad) := acc
-    let envs := (arr rj "env").map fun e => (int e "after", envOf e)
+    let w := if nat rj "who" ≤ sides.length then nat rj "who" else 0
+    -- the claim under reconciliation becomes the current one
+    let s := if w == 0 then s else swap s (w - 1)
+    let meStr := s.me.ns ++ "/" ++ s.me.name
+    let envs := (arr rj "env").map fun e => (int e "after", envFor w e)
     let envAt (k : Nat) : List EnvAct := (envs.filter fun p => p.1 == (k : Int)).map (·.2)
     let s := ((envs.filter fun p => p.1 < 0).map (·.2)).foldl applyEnv s
-    let faults := (arr rj "faults").map fun f => (nat f "k", outcomeOf (str f "o"))
+    let faults := (arr rj "faults").map fun f => (nat f "k", str f "o")
     -- the first fault listed for an index wins on the Go side only if it is the last map write; the harness
     -- builds a map, so the last one wins
-    let plan : Plan := fun k => ((faults.reverse.lookup k).getD .ok)
+    let ostrAt (k : Nat) : String := (faults.reverse.lookup k).getD "ok"
+    let plan : Nat → Flt := fun k => outcomeOf (ostrAt k)
     let rd := obj rj "read"
     let want : String × Bool × Bool := (str rd "ref", bool rd "fin", bool rd "deleting")
     let isWant (c : Claim) : Bool := (xrefStr c.ref, c.fin, c.deleting) == want
@@ -138,9 +193,9 @@ def handler : Handler := fun scn =>
       if bool xj "stale" then
         let p : Option XR → Bool :=
           if bool xj "found" then
-            let want := (str xj "ref", bool xj "labeled", bool xj "fin", bool xj "deleting", bool xj "status", nat xj "gen")
+            let want := (str xj "ref", str xj "lbl", bool xj "fin", bool xj "deleting", bool xj "status", nat xj "gen")
             fun ox => match ox with
-              | some x => (crefStr x.cref x.crefUid, x.labeled, x.fin, x.deleting, x.status, x.gen) == want
+              | some x => (crefStr x.cref x.crefUid, lblStr x.lbl, x.fin, x.deleting, x.status, x.gen) == want
               | none => false
           else fun ox => ox.isNone
         -- the older state with that content in the right incarnation of the name (exactly `absAfter`
@@ -158,14 +213,18 @@ def handler : Handler := fun scn =>
     let cfg : Cfg := { ssa := ssa, xrt := xrtOf (str rj "xrv"), pick := pick, xpick := fun site => xsel.lookup site, cands := strs rj "names", up := up }
     let (s', calls, res) := runRec plan envAt 0 (reconcile cfg) s
     let resStr := match res with | some .ok => "ok" | some .requeue => "requeue" | some .err => "err" | none => "crashed"
-    let o := Json.mkObj [("calls", Json.arr (calls.map callJson).toArray), ("res", .str resStr),
+    let o := Json.mkObj [("calls", Json.arr (calls.zipIdx.map fun (c, k) => callJson meStr (ostrAt k) c).toArray), ("res", .str resStr),
       ("claim", claimJson s'), ("xrs", xrsJson s' names)]
+    let s' := if w == 0 then s' else swap s' (w - 1)
     (s', outs ++ [o], bad)
   let (sf, outs, bad) := recs.foldl step (s0, [], none)
   match bad with
   | some b => .ok (Json.mkObj [("bad", .str b)], true, "")
   | none =>
-    let (ok, why) := propOk sf names initRefs
-    .ok (Json.mkObj [("recs", Json.arr outs.toArray)], ok, why)
+    -- the property from every claim's viewpoint
+    let views : List (St × List Name) := (sf, initRefs.headD []) ::
+      (List.range sides.length).map fun j => (swap sf j, (initRefs.drop (j + 1)).headD [])
+    let verdict := views.foldl (fun (acc : Bool × String) v => if acc.1 then propOk v.1 names v.2 else acc) (true, "")
+    .ok (Json.mkObj [("recs", Json.arr outs.toArray)], verdict.1, verdict.2)
 
 end Xp.C06
